@@ -188,7 +188,7 @@ class Gen:
         if self.r.random() < 0.6:
             mobile = [i for i, d in enumerate(desc, 1) if NU[d["type"]] > 0]
             for _ in range(self.r.randint(1, 3)):
-                t = self.r.choice(["pip", "pip", "cang", "cspeed"])
+                t = self.r.choice(["pip", "pip", "cang", "cspeed", "rod", "rod"])
                 b1, b2 = self.r.randint(0, nb), self.r.randint(1, nb)
                 if t != "cspeed" and b1 == b2:
                     continue
@@ -196,6 +196,8 @@ class Gen:
                 if t == "pip":
                     ax, e = self.r.choice(UAX)
                     cons.append({"type": "pip", "b1": b1, "b2": b2, "n": {"n": ax, "e": e}, "h": self.r.randint(-2, 2), "st": vec(), "on": on})
+                elif t == "rod":
+                    cons.append({"type": "rod", "b1": b1, "b2": b2, "st": vec(), "st2": vec(), "d": self.r.randint(1, 3), "on": on})
                 elif t == "cang":
                     (a1, e1), (a2, e2) = self.r.choice(UAX[:3]), self.r.choice(UAX)
                     cosn, cose = self.r.choice([(0, 0), (0, 0), (3, 1), (-4, 1)])
@@ -203,7 +205,47 @@ class Gen:
                 elif mobile:
                     b = self.r.choice(mobile)
                     cons.append({"type": "cspeed", "b1": b, "k": self.r.randint(1, NU[desc[b - 1]["type"]]), "s": self.r.randint(-2, 2), "on": on})
-        return {"desc": desc, "q": qs, "u": us, "dyn": int(dyn), "ud": ud, "F": F, "cons": cons, "q2": q2s, "u2": u2s, "tasks": tasks, "euler": euler,
+        # force elements with exact laws; the second list is the same elements with changed parameters / enable flags
+        TRANSL = {"slider": [1], "cylinder": [2], "planar": [2, 3], "translation": [1, 2, 3], "bushing": [4, 5, 6], "bendstretch": [2], "euler5": [4, 5], "freee": [4, 5, 6]}
+        fel = []
+        if self.r.random() < 0.6:
+            GV = [[0, -3, 0], [0, 0, -2], [2, -1, 1], [-1, 0, 3]]
+            mobile = [i for i, d in enumerate(desc, 1) if NU[d["type"]] > 0]
+            for _ in range(self.r.randint(1, 4)):
+                t = self.r.choice(["gravity", "gravity", "ugravity", "cforce", "ctorque", "mcf", "mls", "mld", "gdamper"])
+                e = {"type": t, "on": int(self.r.random() < 0.85)}
+                if t in ("gravity", "ugravity"):
+                    e["g"] = self.r.choice(GV); e["ex"] = [int(self.r.random() < 0.2) for _ in desc]
+                elif t in ("cforce", "ctorque"):
+                    e["b"] = self.r.randint(1, nb); e["st"] = vec(); e["f"] = vec()
+                elif t == "gdamper":
+                    e["c"] = self.r.randint(1, 3)
+                else:
+                    if not mobile:
+                        continue
+                    b = self.r.choice(mobile); ty = desc[b - 1]["type"]
+                    if t == "mls":
+                        cand = [i for i, d in enumerate(desc, 1) if d["type"] in TRANSL]
+                        if not cand:
+                            continue
+                        b = self.r.choice(cand); e["k"] = self.r.choice(TRANSL[desc[b - 1]["type"]]); e["q0"] = self.r.randint(-2, 2)
+                    else:
+                        e["k"] = self.r.randint(1, NU[ty])
+                    e["b"] = b; e["c"] = self.r.randint(1, 4) if t != "mcf" else self.r.choice([-3, -1, 2, 4])
+                fel.append(e)
+        fel2 = []
+        for e in fel:
+            e2 = json.loads(json.dumps(e))
+            if self.r.random() < 0.3:
+                e2["on"] = 1 - e2["on"]
+            if e["type"] == "gravity" and self.r.random() < 0.6:
+                e2["g"] = vec(); e2["ex"] = [int(self.r.random() < 0.3) for _ in desc]
+            if e["type"] in ("mcf", "mls", "mld") and self.r.random() < 0.6:
+                e2["c"] = self.r.randint(1, 5)
+                if e["type"] == "mls":
+                    e2["q0"] = self.r.randint(-2, 2)
+            fel2.append(e2)
+        return {"desc": desc, "q": qs, "u": us, "dyn": int(dyn), "ud": ud, "F": F, "cons": cons, "felems": fel, "felems2": fel2, "q2": q2s, "u2": u2s, "tasks": tasks, "euler": euler,
                 "locked": [int(self.r.random() < 0.3) for _ in desc]}
 
 
@@ -343,7 +385,7 @@ def compare(cfg, want, got):
     """-> list of (property, what, detail)"""
     res = []
     if got.get("exc"):
-        return [(p, "exception", got["exc"]) for p in ("C05", "C03", "C04", "C01", "C15", "C02", "C14", "C10", "C06", "C07", "C08")]
+        return [(p, "exception", got["exc"]) for p in ("C05", "C03", "C04", "C01", "C15", "C02", "C14", "C10", "C06", "C07", "C08", "C38", "C12")]
     w = conv(want)
 
     def chk(prop, what, a, b):
@@ -408,9 +450,30 @@ def compare(cfg, want, got):
     if cfg["dyn"]:
         chk("C04", "frame-jacobian-bias", [[t["aw"], t["a"]] for t in w["taskA0"]], [[t["aw"], t["a"]] for t in got["taskA0"]])
         chk("C04", "station-jacobian-bias", [t["a"] for t in w["taskA0"]], [t["as"] for t in got["taskA0"]])
+    # ---- force elements (C38: documented laws and parameter changes taking effect; C12: power against potential energy)
+    if cfg["felems"] and "forces" in got:
+        for tag, what in (("forces", "force-law"), ("forces2", "force-law-after-parameter-change")):
+            kinds = "+".join(sorted(set(e["type"] for e in cfg["felems"])))
+            chk("C38", what + "/body-forces/" + kinds, [[b["t"], b["f"]] for b in w[tag]["body"]], [[b["t"], b["f"]] for b in got[tag]["body"]])
+            chk("C38", what + "/mobility-forces/" + kinds, w[tag]["mob"], got[tag]["mob"])
+            chk("C38", what + "/potential-energy/" + kinds, w[tag]["pe2"], got[tag]["pe2"])
+            chk("C12", "power-of-each-element/" + kinds, w[tag]["power"], got[tag]["power"])
     # ---- constraints (C07: error hierarchy and one G; C08: constrained forward dynamics)
     on = [k for k, cc in enumerate(cfg["cons"]) if cc["on"]]
     if on and "cons" in got:
+        for k in on:      # Rod: finish the spec's exact polynomial ingredients with the square root
+            cc = cfg["cons"][k]
+            if cc["type"] == "rod" and "pp" not in w["cons"][k]:
+                e = w["cons"][k]
+                pp, pv = e["perr"], e["verr"]
+                r = math.sqrt(pp)
+                e["pp"] = pp
+                e["perr"], e["verr"] = r - cc["d"], pv / r
+                e["aerr0"] = e["aerr0"] / r - pv * pv / r ** 3
+                e["aerr"] = e["aerr"] / r - pv * pv / r ** 3
+                pv2 = e["verrU2"]
+                e["verrU2"], e["aerr0U2"] = pv2 / r, e["aerr0U2"] / r - pv2 * pv2 / r ** 3
+                w["G"][k] = [g / r for g in w["G"][k]]
         hol = [k for k in on if cfg["cons"][k]["type"] != "cspeed"]
         non = [k for k in on if cfg["cons"][k]["type"] == "cspeed"]
         order = hol + non                      # the library's equation order: holonomic first, then nonholonomic
@@ -423,6 +486,8 @@ def compare(cfg, want, got):
         Gs = [w["G"][k] for k in order]
         chk("C07", "constraint-matrix-G", Gs, got["G"])
         chk("C07", "acceleration-error-is-derivative-of-velocity-error", [w["cons"][k]["aerr0"] for k in order], got["cbias"])
+        chk("C07", "velocity-error-after-a-u-only-change", [w["cons"][k]["verrU2"] for k in on], got["verrU2"])
+        chk("C07", "acceleration-bias-after-a-u-only-change", [w["cons"][k]["aerr0U2"] for k in order], got["cbiasU2"])
         gsc = max([1.0] + [abs(v) for v in flat(Gs)])
         small("C07", "multiplyByG-agrees-with-G", got["errG"], gsc * 10)
         small("C07", "multiplyByGTranspose-agrees-with-G", got["errGt"], gsc * 10)
@@ -509,6 +574,10 @@ def run(pid, tier, rep, replay=None):
     singular = [i for i in sorted(want) if len(want[i]["M"]) and not is_spd(conv(want[i]["M"]), 1e-9)]
     for i in singular:
         del want[i]
+    for i in want:      # a rod of zero current length has no defined direction: switch it off
+        for k, cc in enumerate(cfgs[i]["cons"]):
+            if cc["type"] == "rod" and frac(want[i]["cons"][k]["perr"]) < 1e-12:
+                cc["on"] = 0
     idx = sorted(want)
     pfile, ofile = os.path.join(work, "run.ndjson"), os.path.join(work, "out.ndjson")
     with open(pfile, "w") as f:
@@ -545,6 +614,10 @@ def run(pid, tier, rep, replay=None):
     cov["euler_option_configurations"] = sum(1 for i in idx if cfgs[i].get("euler"))
     cov["function_based_bodies"] = sum(1 for i in idx for d in cfgs[i]["desc"] if d.get("fb"))
     cov["massless_bodies"] = sum(1 for i in idx for d in cfgs[i]["desc"] if d["mass"] == 0)
+    cov["force_elements"] = {}
+    for i in idx:
+        for e in cfgs[i]["felems"]:
+            cov["force_elements"][e["type"]] = cov["force_elements"].get(e["type"], 0) + 1
     cov["constraints_enabled"] = {}
     for i in idx:
         for cc in cfgs[i]["cons"]:
